@@ -12,7 +12,7 @@ from base import Ctx
 from common import SPEC, MachineryError, cps, text
 
 COPY_OPS = ["copy", "deepcopy", "pickle0", "pickle1", "pickle2", "pickle3", "pickle4", "pickle5"]
-KINDS = ["cmp", "hash", "dict", "sort", "props"]
+KINDS = ["cmp", "hash", "dict", "sort", "props", "container"]
 
 
 def keyfn(e, clause):
@@ -69,10 +69,14 @@ def run(ctx: Ctx) -> dict:
     for b in rng.sample(bics, 40 if ctx.quick else 500):
         pop += [obj("BIC", b), obj("BIC", b.lower()), obj("str", b)]
     pop += [obj("IBAN", ""), obj("BIC", ""), obj("BBAN", "", "DE"), obj("str", ""), obj("IBAN", "x"), obj("BIC", "É")]
+    # same compact string, different class or country (what a memo keyed by value would confuse)
+    pop += [obj("BBAN", "370400440532013000", "DE"), obj("BBAN", "370400440532013000", "AT"),
+            obj("IBAN", "GENODEM1GLS"), obj("BIC", "GENODEM1GLS"), obj("BBAN", "GENODEM1GLS", "GB"),
+            obj("BBAN", "", ""), obj("BBAN", "", "XX")]
     for _ in range(6000 if ctx.quick else 120000):
         a, b = dict(rng.choice(pop)), dict(rng.choice(pop))
         if rng.random() < 0.3:
-            b = dict(a) if rng.random() < 0.5 else dict(b, text=a["text"]) if b["cls"] != "BBAN" else b
+            b = dict(a) if rng.random() < 0.5 else dict(b, text=a["text"])
         for o in (a, b):
             if o["cls"] != "str" and rng.random() < 0.35:
                 o["via"] = [rng.choice(COPY_OPS) for _ in range(rng.choice((1, 1, 2)))]
